@@ -1,2 +1,3 @@
+pub mod parsers;
 pub mod reader;
 pub mod writer;
